@@ -182,6 +182,17 @@ def build_shared_features_map(mod: fx.GraphModule,
             for i in pred:
                 sharing_graph.remove_edge(i, n)
 
+    # a layer invoked multiple times applies the same weights (and the same masks) at each of its call
+    # sites: the tensors it produces share their features, and so do the tensors it consumes
+    first_site: Dict[str, fx.Node] = {}
+    for n in mod.graph.nodes:
+        if is_layer(n, mod, (nn.Conv1d, nn.Conv2d, nn.Linear)):
+            first = first_site.setdefault(str(n.target), n)
+            if first is not n:
+                sharing_graph.add_edge(first, n)
+                if first.all_input_nodes and n.all_input_nodes:
+                    sharing_graph.add_edge(first.all_input_nodes[0], n.all_input_nodes[0])
+
     # handle the case of a forward function with multiple outputs (returned as a tuple or list) with
     # possibly independent shapes. In this case, the graph will contain a final output node that is
     # difficult to treat and we remove in this step, treating each single output independently.
